@@ -815,6 +815,9 @@ def run_stream(res, ctx, n):
                     {"op": "deliver", "kind": "raw", "data": hd[0]["data"], "src": hd[0]["src"]}]}})
             else:
                 B.violate_limited(res, seen, sig, what, {"scenario": sc})
+        if idx % 40 == 39:
+            import gc
+            gc.collect()
         if obs.get("hung"):
             hung += 1
             if hung >= 2:
